@@ -38,6 +38,8 @@ def parse_module(E, extra_derives=(), std_derives=("Debug", "Clone", "PartialEq"
     src = HEADER
     src += D.print_enum(E, ["EnumString"] + list(extra_derives), std_derives=std_derives) + "\n"
     src += probe_impl(E)
+    if E["id"] % 2 == 0:
+        src += D.decoys(E, ["EnumString"] + list(extra_derives))
     src += ("pub fn run(o: &mut Out, ins: &std::collections::HashMap<u32, Vec<String>>, seed: u64) {\n"
             "    let empty: Vec<String> = Vec::new();\n"
             "    let xs = ins.get(&%d).unwrap_or(&empty);\n"
@@ -69,6 +71,8 @@ def names_module(E, derives=("Display", "AsRefStr", "IntoStaticStr", "VariantNam
     src += D.print_enum(E, ds) + "\n"
     if parse:
         src += probe_impl(E)
+    if E["id"] % 2 == 0:
+        src += D.decoys(E, ds)       # inherent items named like the traits' (drivers below call the traits by path)
     B = twin(E)
     if dep:
         src += D.print_enum(B, ["ToString", "AsStaticStr"]) + "\n"
@@ -87,14 +91,14 @@ def names_module(E, derives=("Display", "AsRefStr", "IntoStaticStr", "VariantNam
             outs = []
             if has("Display"):
                 blk.append('            let display = format!("{}", x);')
-                blk.append('            let tostr = x.to_string();')
+                blk.append('            let tostr = ::std::string::ToString::to_string(&x);')
                 outs += [("display", "&display"), ("to_string", "&tostr")]
             if has("AsRefStr"):
                 blk.append('            let as_ref: String = AsRef::<str>::as_ref(&x).to_string();')
                 outs += [("as_ref", "&as_ref")]
             if has("IntoStaticStr"):
-                blk.append("            let into_ref: &'static str = (&x).into();")
-                blk.append("            let into_val: &'static str = x.clone().into();")
+                blk.append("            let into_ref: &'static str = <&'static str as ::core::convert::From<&%s>>::from(&x);" % D.inst(E))
+                blk.append("            let into_val: &'static str = <&'static str as ::core::convert::From<%s>>::from(::core::clone::Clone::clone(&x));" % D.inst(E))
                 outs += [("into_ref", "into_ref"), ("into_val", "into_val")]
                 if E["cis"]:
                     blk.append("            let into_str: &'static str = x.into_str();")
@@ -147,20 +151,22 @@ def _ev_panic(did, k):
 
 def display_module(E, facts, derives=("Display",)):
     """fixed names under the spec grid; interpolating literals next to a hand-written format!"""
-    src = HEADER + D.print_enum(E, list(derives)) + "\n"
+    src = HEADER + D.print_enum(E, list(derives), std_derives=E.get("std_derives", ("Debug", "Clone", "PartialEq"))) + "\n"
     did = E["id"]
     body = []
     for i, v in enumerate(E["variants"]):
         k = i + 1
         if v["dis"] or v["transp"] or v["def"]:
             continue
+        mut = [f["ty"] == "mutref" for f in v["fields"]]
         if facts["interp"][i]:
             for vs in v.get("vals") or [[D._fval(E, f, 1) for f in v["fields"]], [D._fval(E, f, 2) for f in v["fields"]]]:
                 blk = ["    {", "        let r = catch(|| {"]
                 for n, ex in enumerate(vs):
-                    blk.append("            let v%d = %s;" % (n, ex))
-                blk.append("            let x = %s;" % D.ctor(E, v, vals=["v%d.clone()" % n for n in range(len(vs))]))
-                blk.append('            let obs = format!("{}", x);')
+                    if mut[n]:
+                        blk.append("            let mut m%d = %s; let v%d = &mut m%d;" % (n, ex, n, n))      # a `&mut` field needs a place
+                    else:
+                        blk.append("            let v%d = %s;" % (n, ex))
                 lit = D.rs_str((E["prefix"][0] if E["prefix"] else []) + v["ts"][0])
                 if v["kind"] == "tuple":
                     args = ", ".join("v%d" % n for n in range(len(vs)))
@@ -185,13 +191,18 @@ def display_module(E, facts, derives=("Display",)):
                     frs.append('format!("{{\\"f\\":%d,\\"spec\\":{},\\"out\\":{}}}", jcps(%s), jcps(&format!("%s", %s)))'
                                % (p["f"], D.rs_str([ord(c) for c in p["spec"]]), fl, fargs))
                 blk.append("            let fr: Vec<String> = vec![%s];" % ", ".join(frs))
+                # the value is built last: a `&mut` payload moves into it
+                blk.append("            let x = %s;" % D.ctor(E, v, vals=[("v%d" if mut[n] else "v%d.clone()") % n for n in range(len(vs))]))
+                blk.append('            let obs = format!("{}", x);')
                 blk.append('            o.line(&format!("{{\\"op\\":\\"interp\\",\\"def\\":%d,\\"i\\":%d,\\"obs\\":{},\\"std\\":{},\\"fr\\":{}}}", jcps(&obs), jcps(&std), jlist(&fr)));' % (did, k))
                 blk.append("        });")
                 blk.append(_ev_panic(did, k))
                 blk.append("    }")
                 body += blk
         else:
-            body += ["    {", "        let r = catch(|| {", "            let x = %s;" % D.ctor(E, v, 1),
+            places = ["            let mut m%d = 7u8;" % n for n in range(len(mut)) if mut[n]]
+            vals = [("&mut m%d" % n) if mut[n] else D._fval(E, f, 1) for n, f in enumerate(v["fields"])] if any(mut) else None
+            body += ["    {", "        let r = catch(|| {"] + places + ["            let x = %s;" % D.ctor(E, v, 1, vals=vals),
                      "            fmt_event(o, %d, %d, &x);" % (did, k), "        });", _ev_panic(did, k), "    }"]
     src += ("pub fn run(o: &mut Out, ins: &std::collections::HashMap<u32, Vec<String>>, seed: u64) {\n%s\n}\n" % "\n".join(body))
     return src
